@@ -95,6 +95,21 @@ WorldD == <<
   Share(10, 3, TRUE, 0),
   Share(11, 5, FALSE, 0) >>
 
-WorldSeq   == <<WorldA, WorldB, WorldC, WorldD>>
-WorldNames == <<"A-tree", "B-deletes", "C-mergesets", "D-searchshares">>
+(* E: longer delete chains: a share deleted, undeleted and deleted AGAIN (three delete claims in a row), and a
+   share whose undeletion stands because the claim deleting it again was never stored. *)
+WorldE == <<
+  It(1, "key"),
+  It(2, "chunk"),
+  [It(3, "file") EXCEPT !.parts = <<Blob(2)>>],
+  Share(4, 3, TRUE, 0),
+  Delete(5, 4),
+  Delete(6, 5),
+  Delete(7, 6),
+  Share(8, 3, TRUE, 0),
+  Delete(9, 8),
+  Delete(10, 9),
+  [Delete(11, 10) EXCEPT !.stored = FALSE] >>
+
+WorldSeq   == <<WorldA, WorldB, WorldC, WorldD, WorldE>>
+WorldNames == <<"A-tree", "B-deletes", "C-mergesets", "D-searchshares", "E-redeleted">>
 =============================================================================
